@@ -784,3 +784,36 @@ pub fn minimize_text<F: Fn(&str) -> bool>(s: &str, fails: F) -> String {
     }
     cur.into_iter().collect()
 }
+
+/// Delta-debugging over the elements of a vector (same contract as `minimize_text`).
+pub fn minimize_vec<T: Clone, F: Fn(&[T]) -> bool>(v: &[T], fails: F) -> Vec<T> {
+    let mut cur: Vec<T> = v.to_vec();
+    let mut chunk = (cur.len() / 2).max(1);
+    let mut budget = 4000usize;
+    loop {
+        let mut progressed = false;
+        let mut i = 0;
+        while i < cur.len() && budget > 0 {
+            let end = (i + chunk).min(cur.len());
+            let cand: Vec<T> = cur[..i].iter().chain(cur[end..].iter()).cloned().collect();
+            budget -= 1;
+            if fails(&cand) {
+                cur = cand;
+                progressed = true;
+            } else {
+                i += chunk;
+            }
+        }
+        if budget == 0 {
+            break;
+        }
+        if chunk == 1 {
+            if !progressed {
+                break;
+            }
+        } else {
+            chunk = (chunk / 2).max(1);
+        }
+    }
+    cur
+}
